@@ -359,6 +359,7 @@ type world struct {
 	maxDt         time.Duration
 	everPublished map[string]int
 	dbDown        bool
+	stalled       bool
 	pastSummaries string
 	deliveryStep  bool
 
@@ -446,6 +447,13 @@ func (w *world) newProcessor() {
 }
 
 func (w *world) stopProcessor() {
+	if w.stalled {
+		if w.cancel != nil {
+			w.cancel()
+		}
+		close(w.stopDr)
+		return
+	}
 	if w.loop && w.cancel != nil {
 		w.cancel()
 		<-w.runDone
@@ -641,13 +649,27 @@ func (w *world) ensureDM(d msgDesc) *digestModel {
 }
 
 // guard runs one handler call; in direct mode a panic is caught here (C13).
+// guard runs one handler call (direct mode) or one channel hand-off (loop mode) on its own
+// goroutine and waits for quiescence: a panic is caught here (C13); a call that has not returned
+// when everything is durably blocked has stalled the processor (C17: posting to a full outbound
+// queue must fail immediately instead of stalling the caller).
 func (w *world) guard(f func()) {
-	defer func() {
-		if r := recover(); r != nil {
-			w.recordPanic(r, debug.Stack())
-		}
+	done := false
+	go func() {
+		defer func() {
+			if r := recover(); r != nil {
+				w.recordPanic(r, debug.Stack())
+			}
+			done = true
+		}()
+		f()
 	}()
-	f()
+	synctest.Wait()
+	if !done {
+		w.dead = true
+		w.stalled = true
+		w.violate("C17", "processor-stalled-in-handler", "the processor did not return from step %s: it is blocked (outbound request queue capacity %d)", w.curStep, w.reqCap)
+	}
 }
 
 func (w *world) gsOf(s *setDef) *common.GuardianSet {
@@ -682,7 +704,7 @@ func (w *world) runStep(i int, st simkit.Step) {
 		w.cur = s
 		gs := w.gsOf(s)
 		if w.loop {
-			w.setC <- gs
+			w.guard(func() { w.setC <- gs })
 		} else {
 			w.p.gs = gs
 			w.p.gst.Set(gs)
@@ -691,7 +713,7 @@ func (w *world) runStep(i int, st simkit.Step) {
 		d := decodeMsg(st.A)
 		k := d.publication()
 		if w.loop {
-			w.lockC <- k
+			w.guard(func() { w.lockC <- k })
 		} else {
 			w.guard(func() { w.p.handleMessage(w.supCtx, k) })
 		}
@@ -701,7 +723,7 @@ func (w *world) runStep(i int, st simkit.Step) {
 		v := &vaa.VAA{Version: 1, GuardianSetIndex: uint32(st.B), Timestamp: k.Timestamp, Nonce: k.Nonce, Sequence: k.Sequence,
 			ConsistencyLevel: k.ConsistencyLevel, EmitterChain: k.EmitterChain, TargetChain: k.TargetChain, EmitterAddress: k.EmitterAddress, Payload: k.Payload}
 		if w.loop {
-			w.injectC <- v
+			w.guard(func() { w.injectC <- v })
 		} else {
 			w.guard(func() { w.p.handleInjection(w.supCtx, v) })
 		}
@@ -726,7 +748,7 @@ func (w *world) runStep(i int, st simkit.Step) {
 		obsHash = hex.EncodeToString(ob.Hash)
 		w.noteDelivery(ob, &obsAcceptable)
 		if w.loop {
-			w.obsvC <- ob
+			w.guard(func() { w.obsvC <- ob })
 		} else {
 			w.guard(func() { w.p.handleObservation(w.supCtx, ob) })
 		}
@@ -734,7 +756,7 @@ func (w *world) runStep(i int, st simkit.Step) {
 		b := w.buildInbound(st)
 		m := &gossipv1.SignedVAAWithQuorum{Vaa: b}
 		if w.loop {
-			w.signedInC <- m
+			w.guard(func() { w.signedInC <- m })
 		} else {
 			w.guard(func() { w.p.handleInboundSignedVAAWithQuorum(w.supCtx, m) })
 		}
@@ -1348,6 +1370,14 @@ func (w *world) doTicks(st simkit.Step) {
 		time.Sleep(dt)
 		if !w.loop {
 			w.guard(func() { w.p.handleCleanup(w.supCtx) })
+		} else {
+			// the Run loop must be back in its select: a set update hand-off completes at once
+			if cur := w.p.gs; cur != nil {
+				w.guard(func() { w.setC <- cur })
+			}
+		}
+		if w.dead {
+			return
 		}
 		o := w.collect()
 		if w.panicked != nil {
@@ -1660,6 +1690,8 @@ func (h procHarness) execOnce(p *simkit.Program) (*simkit.Result, *world) {
 		res.NonTrivial = len(p.Steps) >= 3
 	case "C14":
 		res.NonTrivial = w.nRetries > 0 || w.nExpired > 0
+	case "C17":
+		res.NonTrivial = w.nRetries > w.reqCap
 	}
 	// only violations of the selected property are fatal for this check; others are kept as probes
 	var keep []simkit.Violation
